@@ -6,6 +6,7 @@ byte string and port, every `max_flow_id_retries`.
 import Penguin.Model.Mux
 import Penguin.Lemmas.MuxBasic
 import Penguin.Lemmas.MuxStep
+import Penguin.Lemmas.PairCor
 
 namespace Penguin.C07
 open Penguin Penguin.Mux
@@ -107,5 +108,44 @@ theorem simultaneous_open_collision (e : EP) (fid req rwnd port : Nat) (host : B
 example : (appOpen { opts := {}, rng := [0, 5] } 1 [0x61] 80).1.outq
     = [.frame (.connect 5 4 80 [0x61])] := by decide
 example : (processFrame { opts := {} } (.connect 5 9 80 [0x61]) false).1.outq = [.frame (.acknowledge 5 4)] := by decide
+
+
+/-! ### Over two whole endpoint models joined by FIFO wires (`Penguin.Pair`) -/
+
+open Penguin.Pair in
+/-- One request, one stream on each endpoint: whenever a flow id is established on both endpoints
+    (in any reachable state of the pair, under any interleaving), each endpoint has exactly one stream
+    object carrying that id, both carry the same id, and each one's receive window is the `rwnd` its
+    endpoint advertises — the initial send credit of the peer (`pair_window_never_exceeded`, C03). -/
+theorem pair_one_stream_each_side {oa ob : Opts} {ra rb : List Nat} (c : Cfg oa ob ra rb) (as : List (Pair.Side × Pair.Act))
+    {x i j : Nat} (e : Established (Pair.run (Pair.init oa ob ra rb) as) x i j) :
+    let p := Pair.run (Pair.init oa ob ra rb) as
+    ∃ oA oB, p.a.objs[i]? = some oA ∧ p.b.objs[j]? = some oB ∧ oA.fid = x ∧ oB.fid = x ∧
+      oA.cap = oa.rwnd ∧ oB.cap = ob.rwnd ∧
+      (∀ k o, p.a.objs[k]? = some o → o.fid = x → k = i) ∧ (∀ k o, p.b.objs[k]? = some o → o.fid = x → k = j) := by
+  obtain ⟨oA, oB, _, h1, h2, h3, h4, h5, h6, _, h7, h8⟩ := established_dir (reach_inv c as) e
+  have ho := run_opts (Pair.init oa ob ra rb) as (init_inv oa ob ra rb c.wa c.wb c.nodup c.nonzero)
+  exact ⟨oA, oB, h1, h2, h3, h4, by rw [h5, ho.1]; rfl, by rw [h6, ho.2]; rfl, h7, h8⟩
+
+open Penguin.Pair in
+/-- Flow ids stay usable for ever: no id that is still in a script is in use anywhere (slot, object,
+    frame in flight, pending notification) on either endpoint, in any reachable state. -/
+theorem pair_script_ids_are_free {oa ob : Opts} {ra rb : List Nat} (c : Cfg oa ob ra rb) (as : List (Pair.Side × Pair.Act))
+    (x : Nat) (hx : x ∈ (Pair.run (Pair.init oa ob ra rb) as).a.rng ∨ x ∈ (Pair.run (Pair.init oa ob ra rb) as).b.rng) :
+    let p := Pair.run (Pair.init oa ob ra rb) as
+    lookup p.a.flows x = none ∧ lookup p.b.flows x = none ∧ fl x (pathAB p) = [] ∧ fl x (pathBA p) = [] := by
+  have f := fresh_of_inRng (reach_inv c as) x hx
+  exact ⟨f.sa, f.sb, f.fab, f.fba⟩
+
+/-! Non-vacuity of the pair theorems: a concrete run (windows 2, threshold 1) that opens a stream,
+    writes three bytes, reads them in two reads, shuts down and reads end-of-stream. -/
+private def pcfg : Mux.Opts := { rwnd := 2, threshold := 1 }
+private def pacts : List (Pair.Side × Pair.Act) :=
+  [(.A, .open 1 [104] 80), (.A, .xmit), (.B, .recv), (.B, .xmit), (.A, .recv), (.A, .runDone), (.B, .accept),
+   (.A, .write 0 [1, 2, 3]), (.A, .xmit), (.B, .recv), (.B, .read 0 2), (.B, .read 0 9), (.B, .xmit), (.A, .recv),
+   (.A, .shutdown 0), (.A, .xmit), (.B, .recv), (.B, .read 0 9)]
+example : Pair.Cfg pcfg pcfg [7, 8] [9, 10] := ⟨by decide, by decide, by decide, by decide⟩
+example : Pair.Established (Pair.run (Pair.init pcfg pcfg [7, 8] [9, 10]) pacts) 7 0 0 :=
+  ⟨by decide, by decide, by decide, by decide⟩
 
 end Penguin.C07
